@@ -78,12 +78,12 @@ Init ==
   /\ pubctx = [c \in Conns |-> Ctx0]
   /\ sess = [k \in SKeys |-> Sess0]
   /\ retained = {}
-  /\ cfg = [window |-> 10, queue |-> 100, pubpar |-> 10, subpar |-> 10, auth |-> FALSE]
+  /\ cfg = [window |-> 10, queue |-> 100, pubpar |-> 10, subpar |-> 10, auth |-> FALSE, ackmode |-> ""]
   /\ closing = FALSE
   /\ ghost = [handed |-> <<>>, acked |-> {}, willpub |-> <<>>]
 
-Config(window, queue, pubpar, subpar, auth) ==
-  /\ cfg' = [window |-> window, queue |-> queue, pubpar |-> pubpar, subpar |-> subpar, auth |-> auth]
+Config(window, queue, pubpar, subpar, auth, ackmode) ==
+  /\ cfg' = [window |-> window, queue |-> queue, pubpar |-> pubpar, subpar |-> subpar, auth |-> auth, ackmode |-> ackmode]
   /\ UNCHANGED <<link, up, down, cl, dq, ackq, ackdue, tok, pubctx, sess, retained, closing, ghost>>
 
 ----------------------------------------------------------------------------
@@ -231,10 +231,10 @@ SetupRet(c, resumed, s) ==
          temp == cl[c].clean \/ cid = ""
          existed == ~temp /\ sess[s].exists
      IN
+     \* the previous holder of the id has released the session: its will is published and Terminate has been entered
+     \* (Terminate's effect and Setup are serialised by the backend's lock; the return of Terminate is logged outside it)
      /\ G("C13", "AtMostOneActivePerId",
-          cid # "" => \A c2 \in Conns \ {c} : (cl[c2].accepted /\ cl[c2].cid = cid) => cl[c2].terms > 0)
-     /\ G("C13", "VictimClosedBeforeSetupReturns",
-          cid # "" => \A c2 \in Conns \ {c} : (cl[c2].accepted /\ cl[c2].cid = cid) => cl[c2].closed)
+          cid # "" => \A c2 \in Conns \ {c} : (cl[c2].accepted /\ cl[c2].cid = cid) => cl[c2].cleanup \in {"term", "termd", "done"})
      /\ G("C08", "ResumedIffStoredStateExists", resumed = existed)
      /\ sess' = [k \in SKeys |->
                   IF k = s THEN (IF existed THEN [sess[s] EXCEPT !.tq = <<>>, !.active = c]       \* reuse(): fresh temporary queue
@@ -376,8 +376,8 @@ PubCall(c, msg, hasack) ==
         /\ ackdue' = [ackdue EXCEPT ![c] = @ \cup {[m |-> msg.m, pkt |-> [t |-> "PUBCOMP", id |-> cl[c].pkt.id]]}]
         /\ SetCl(c, [cl[c] EXCEPT !.pc = "pub"])
         /\ pubctx' = [pubctx EXCEPT ![c] = [on |-> TRUE, msg |-> [msg EXCEPT !.ret = FALSE], todo |-> {k \in SKeys : sess[k].exists}, src |-> "proc"]]
-        /\ G("C07", "Q2HandedOnce", \/ msg.m \notin SeqSet(ghost.handed)
-                                       \/ [c |-> cl[c].sk, m |-> msg.m] \notin ghost.acked)   \* a repeat only while the first hand-over is in doubt
+        \* exactly once: the stored message is handed on again only while the first hand-over is in doubt (its ack was never invoked)
+        /\ G("C07", "Q2HandedOnce", \A x \in S(c).inc : x.id = cl[c].pkt.id => (~x.handed \/ ~x.acked))
         /\ ghost' = [ghost EXCEPT !.handed = Append(@, msg.m)]
      \/ /\ cl[c].cleanup = "start"                                   \* the will, from cleanup
         /\ G("C12", "WillOnlyIfAcceptedAndNotDisconnected", cl[c].accepted /\ ~cl[c].discon /\ cl[c].haswill)
@@ -389,7 +389,10 @@ PubCall(c, msg, hasack) ==
         /\ pubctx' = [pubctx EXCEPT ![c] = [on |-> TRUE, msg |-> [msg EXCEPT !.ret = FALSE], todo |-> {k \in SKeys : sess[k].exists}, src |-> "will"]]
         /\ ghost' = [ghost EXCEPT !.willpub = Append(@, c)]
   /\ retained' = Retain(msg)
-  /\ UNCHANGED <<link, up, down, dq, ackq, sess, cfg, closing>>
+  /\ sess' = IF cl[c].pc = "rel.known"
+             THEN [sess EXCEPT ![cl[c].sk].inc = {IF x.id = cl[c].pkt.id THEN [x EXCEPT !.handed = TRUE] ELSE x : x \in @}]
+             ELSE sess
+  /\ UNCHANGED <<link, up, down, dq, ackq, cfg, closing>>
 
 \* silent: MemoryBackend.Publish visits one session (any order)
 FanOut(c, s, drop) ==
@@ -417,8 +420,10 @@ PubAck(c, m) ==
        /\ \/ ackq' = [ackq EXCEPT ![c] = Append(@, a.pkt)]
           \/ cl[c].dying /\ ackq' = ackq
        /\ ghost' = [ghost EXCEPT !.acked = @ \cup {[c |-> cl[c].sk, m |-> m]}]
-       \* with the acknowledgement of a released QoS 2 message its stored copy is deleted (see IncDelete)
-  /\ UNCHANGED <<link, up, down, cl, dq, tok, pubctx, sess, retained, cfg, closing>>
+       /\ sess' = IF a.pkt.t = "PUBCOMP" /\ cl[c].sk # ""
+                  THEN [sess EXCEPT ![cl[c].sk].inc = {IF x.id = a.pkt.id THEN [x EXCEPT !.acked = TRUE] ELSE x : x \in @}]
+                  ELSE sess
+  /\ UNCHANGED <<link, up, down, cl, dq, tok, pubctx, retained, cfg, closing>>
 
 PubRet(c, err) ==
   /\ pubctx[c].on
@@ -435,7 +440,7 @@ IncSave(c, s, pkt) ==
   /\ tok[c].p > 0
   /\ tok' = [tok EXCEPT ![c].p = @ - 1]
   /\ pkt.id = cl[c].pkt.id /\ SameMsg(pkt.msg, cl[c].pkt.msg)
-  /\ sess' = [sess EXCEPT ![s].inc = {x \in @ : x.id # pkt.id} \cup {[id |-> pkt.id, msg |-> pkt.msg]}]
+  /\ sess' = [sess EXCEPT ![s].inc = {x \in @ : x.id # pkt.id} \cup {[id |-> pkt.id, msg |-> pkt.msg, handed |-> FALSE, acked |-> FALSE]}]
   /\ SetCl(c, [cl[c] EXCEPT !.pc = "p2.saved"])
   /\ UNCHANGED <<link, up, down, dq, ackq, ackdue, pubctx, retained, cfg, closing, ghost>>
 
@@ -465,8 +470,7 @@ SendPubcompUnknown(c, pkt) ==
 \* deletion of a stored inbound QoS 2 message (by the ack path / the acker)
 IncDelete(c, s, id) ==
   /\ s = cl[c].sk
-  /\ G("C07", "IncomingKeptUntilHandedOn",
-       id \in IncIds(s) => \E x \in sess[s].inc : x.id = id /\ [c |-> s, m |-> x.msg.m] \in ghost.acked)
+  /\ G("C07", "IncomingKeptUntilHandedOn", \A x \in sess[s].inc : x.id = id => x.acked)
   /\ sess' = [sess EXCEPT ![s].inc = {x \in @ : x.id # id}]
   /\ UNCHANGED <<link, up, down, cl, dq, ackq, ackdue, tok, pubctx, retained, cfg, closing, ghost>>
 
@@ -653,7 +657,7 @@ SettledConn(c) ==
   /\ G("C14", "EveryEndedConnectionClosed", (link[c] \in {"gclosed", "dead", "pclosed"} /\ cl[c].pc # "off") => cl[c].closed)
   /\ Connected(c) =>
        /\ G("C20", "EveryRequestAnswered", up[c] = <<>> /\ ackq[c] = <<>> /\ cl[c].pc = "idle" /\ ~pubctx[c].on)
-       /\ G("C07", "EveryAcceptedPublishAcknowledged", ackdue[c] = {})
+       /\ G("C07", "EveryAcceptedPublishAcknowledged", cfg.ackmode = "never" \/ ackdue[c] = {})
        /\ G("C06", "AllSentReceived", down[c] = <<>>)
        /\ G("C06,C08,C16", "QueuedMessagesDelivered",
             \/ (S(c).tq = <<>> /\ S(c).sq = <<>> /\ dq[c].pc = "calling")
